@@ -456,9 +456,11 @@ Corruptions(G, vals, ef, offs, enc, encLen, isBase) ==
   IF CorrMode = "none" THEN {}
   ELSE LET single == LenCorrs(G, vals, offs, Len(enc)) \cup TagCorrs(G, ef, offs) \cup TextCorrs(G, ef, offs)
        IN Truncs(encLen) \cup single \cup Raws
-          \* basic: bits 0 and 7 of every byte of the base vector; all: all bits, every vector
-          \cup (IF CorrMode = "all" THEN Flips(enc, encLen, 0..7) ELSE IF isBase THEN Flips(enc, encLen, {0, 7}) ELSE {})
-          \cup (IF CorrMode = "all" THEN Doubles(offs, single, encLen) ELSE {})
+          \* basic: bits 0 and 7 of every byte of the base vector;
+          \* all: every bit of every byte of the base vector, bits 0 and 7 for the other vectors
+          \cup (IF isBase THEN Flips(enc, encLen, IF CorrMode = "all" THEN 0..7 ELSE {0, 7})
+                ELSE IF CorrMode = "all" THEN Flips(enc, encLen, {0, 7}) ELSE {})
+          \cup (IF CorrMode = "all" /\ isBase THEN Doubles(offs, single, encLen) ELSE {})
 
 -----------------------------------------------------------------------------
 (* the cases *)
